@@ -72,6 +72,7 @@ func TestVerifC07(t *testing.T) {
 	}
 	for i := 0; i < n; i++ {
 		c := &advCase{ID: fmt.Sprintf("hist/%d", i), Fwd: true, Terminate: true, Seed: time.Duration(rr.Int63n(1e9))}
+		c.MACPerGen = i%3 == 1 // the hardware address differs from one dial to the next
 		c.Min, c.Max = vRegime(rr)
 		c.UnicastOnly = rr.Intn(3) == 0
 		m := 5 + rr.Intn(36)
@@ -166,6 +167,7 @@ func TestVerifC08(t *testing.T) {
 	slow := []time.Duration{vMs, 5 * vMs, 499 * vMs, 501 * vMs, 800 * vMs, 2 * time.Second, 7 * time.Second}
 	for i := 0; i < n; i++ {
 		c := &advCase{ID: fmt.Sprintf("stop/%d", i), Fwd: true, Terminate: i%2 == 0, Seed: time.Duration(rr.Int63n(1e9)), Min: 20 * time.Second, Max: 30 * time.Second}
+		c.MACPerGen = i%3 == 1 // the hardware address differs from one dial to the next
 		c.UnicastOnly = rr.Intn(8) == 0
 		class := i / 2 % 7
 		t0 := 5*time.Second + time.Duration(rr.Int63n(int64(5*time.Second)))
@@ -511,6 +513,7 @@ func TestVerifC09(t *testing.T) {
 	}
 	for i := 0; i < n; i++ {
 		c := &advCase{ID: fmt.Sprintf("rand/%d", i), Fwd: true, Terminate: true, Seed: time.Duration(rr.Int63n(1e9))}
+		c.MACPerGen = i%3 == 1 // the hardware address differs from one dial to the next
 		c.Min, c.Max = vRegime(rr)
 		at := time.Duration(rr.Int63n(int64(5 * time.Second)))
 		timeouts := 0
@@ -568,6 +571,7 @@ func TestVerifC10(t *testing.T) {
 		}
 		c := &advCase{ID: id, Min: 20 * time.Second, Max: 30 * time.Second, Fwd: true, Terminate: true, UnicastOnly: unicastOnly, Seed: time.Duration(seed), FwdLat: lat, WriteLat: lat}
 		c.Monitor = strings.HasPrefix(id, "monfault/")
+		c.MACPerGen = vlib.Hash64(id)%3 == 1 // the hardware address differs from one dial to the next
 		// a solicitation that is answered before the fault
 		c.Steps = append(c.Steps, advStep{At: fl.at - 2*time.Second, Kind: "rs", Src: "fe80::a:1"})
 		expect := "continue" // continue | redial | error
@@ -591,6 +595,16 @@ func TestVerifC10(t *testing.T) {
 			}
 			if nTimeouts >= 5 {
 				expect = "error"
+			}
+		case "spreadtimeouts":
+			// time-outs that are each followed by a message that is received: every
+			// receive sees one time-out only, so however many there are over the life
+			// of the task, none of them is an error
+			var n int
+			fmt.Sscan(parts[1], &n)
+			for j := 0; j < n; j++ {
+				at := fl.at + time.Duration(j)*300*vMs
+				c.Steps = append(c.Steps, advStep{At: at, Kind: "readerr", Err: "timeout"}, advStep{At: at + 100*vMs, Kind: "rs", Src: fmt.Sprintf("fe80::d:%x", j+1)})
 			}
 		case "write", "writepending", "writeall":
 			c.WriteErrKind, c.WriteErrAfter = parts[1], fl.at
@@ -660,6 +674,13 @@ func TestVerifC10(t *testing.T) {
 		res := advRun(t, c)
 		if !vRunCommon(r, c, res) {
 			return
+		}
+		if !c.Monitor {
+			// a re-established task advertises what the configuration calls for on the
+			// interface as it is now (its hardware address may have changed meanwhile)
+			if _, exp, err := vParseOne(c.doc()); err == nil && !advContent(r, c, res, exp) {
+				return
+			}
 		}
 		r.Nontrivial(id)
 		r.Count("fault_"+parts[0], 1)
@@ -809,11 +830,11 @@ func TestVerifC10(t *testing.T) {
 	}
 
 	kinds := []string{"read:syscall", "read:perm", "read:other", "read:eintr", "read:emfile", "read:op-netdown", "timeouts:1", "timeouts:2", "timeouts:3", "timeouts:4", "timeouts:5", "timeouts:6",
-		"timeoutsinv:1", "timeoutsinv:3", "timeoutsinv:4", "timeoutsinv:5",
+		"timeoutsinv:1", "timeoutsinv:3", "timeoutsinv:4", "timeoutsinv:5", "spreadtimeouts:5", "spreadtimeouts:6", "spreadtimeouts:12",
 		"linkondial", "write:nobufs", "write:perm", "write:other", "write:op-nobufs", "write:op-acces", "writepending:nobufs", "writepending:other", "writeall:nobufs", "writeall:perm", "link", "watchclose", "spacing:link", "spacing:read", "stalledpeer:x"}
 	// the same read-side faults against a Monitor task
 	mreps := r.Pick(4, 150)
-	for _, k := range []string{"read:syscall", "read:perm", "read:other", "read:eintr", "read:emfile", "timeouts:1", "timeouts:4", "timeouts:5", "timeouts:6", "link", "linkondial", "watchclose"} {
+	for _, k := range []string{"read:syscall", "read:perm", "read:other", "read:eintr", "read:emfile", "timeouts:1", "timeouts:4", "timeouts:5", "timeouts:6", "spreadtimeouts:5", "spreadtimeouts:9", "link", "linkondial", "watchclose"} {
 		for rep := 0; rep < mreps; rep++ {
 			at := 4*time.Second + time.Duration(rr.Int63n(int64(8*time.Second)))
 			run(fmt.Sprintf("monfault/%s/%d", k, rep), fault{k, at}, false, 0, rr.Int63n(1e9))
